@@ -296,3 +296,206 @@ pub fn c08_cli_family(rep: &mut Report) {
     rep.cov_add("traces_validated_against_impl", runs);
     let _ = File::default();
 }
+
+// ------------------------------------------------------------------------------------------
+// C07, process level
+// ------------------------------------------------------------------------------------------
+
+pub fn par_map<T: Send + Sync, R: Send, F: Fn(&T) -> R + Sync>(items: &[T], threads: usize, f: F) -> Vec<R> {
+    let next = AtomicUsize::new(0);
+    let out: std::sync::Mutex<Vec<(usize, R)>> = std::sync::Mutex::new(Vec::new());
+    std::thread::scope(|s| {
+        for _ in 0..threads.max(1).min(items.len().max(1)) {
+            s.spawn(|| loop {
+                let i = next.fetch_add(1, Ordering::SeqCst);
+                if i >= items.len() {
+                    break;
+                }
+                let r = f(&items[i]);
+                out.lock().unwrap().push((i, r));
+            });
+        }
+    });
+    let mut v = out.into_inner().unwrap();
+    v.sort_by_key(|x| x.0);
+    v.into_iter().map(|x| x.1).collect()
+}
+
+#[derive(Clone, Debug)]
+struct ProcCase {
+    label: String,
+    /// files to create: (relative path, bytes)
+    files: Vec<(String, Vec<u8>)>,
+    /// extra setup: "symlink:<rel>" dangling symlink, "dir:<rel>" directory
+    setup: Vec<String>,
+    lang: Lang,
+    multi: bool,
+    /// the file a parse-stage diagnostic must name (None: no single offending file)
+    offending: Option<String>,
+    extra_args: Vec<String>,
+    /// input directory argument relative to the scratch root
+    input: String,
+}
+
+fn proc_cases(thorough: bool) -> Vec<ProcCase> {
+    use crate::props::c07::{render_symbol, Sym, BASELINE, SYMBOLS};
+    let langs: Vec<Lang> = if thorough { ALL_LANGS.to_vec() } else { vec![Lang::TypeScript, Lang::Kotlin, Lang::Go] };
+    let mut v = Vec::new();
+    for &lang in &langs {
+        for multi in [false, true] {
+            // every edge symbol alone, at its first position (positions are covered in-process)
+            for (name, sym) in SYMBOLS {
+                if !thorough && !multi && !matches!(lang, Lang::TypeScript) && !matches!(sym, Sym::Item(_)) {
+                    continue;
+                }
+                let (s, _) = render_symbol(sym, 0, 0);
+                let src = if matches!(sym, Sym::Use(_)) { format!("{s}{BASELINE}") } else { format!("{BASELINE}{s}") };
+                v.push(ProcCase {
+                    label: format!("symbol:{name}"),
+                    files: vec![("ws/edge-crate/src/lib.rs".into(), src.into_bytes()), ("ws/edge-crate/src/other.rs".into(), b"#[typeshare]\npub struct Other { pub o: u32 }\n".to_vec())],
+                    setup: vec![],
+                    lang,
+                    multi,
+                    offending: Some("ws/edge-crate/src/lib.rs".into()),
+                    extra_args: vec![],
+                    input: "ws".into(),
+                });
+            }
+            let good = b"#[typeshare]\npub struct Good { pub a: u32 }\n".to_vec();
+            let mut fault = |label: &str, files: Vec<(&str, Vec<u8>)>, setup: Vec<&str>, offending: Option<&str>, extra: Vec<&str>, input: &str| {
+                v.push(ProcCase {
+                    label: format!("fault:{label}"),
+                    files: files.into_iter().map(|(p, b)| (p.to_string(), b)).collect(),
+                    setup: setup.into_iter().map(String::from).collect(),
+                    lang,
+                    multi,
+                    offending: offending.map(String::from),
+                    extra_args: extra.into_iter().map(String::from).collect(),
+                    input: input.to_string(),
+                });
+            };
+            fault("invalid-utf8", vec![("ws/c/src/good.rs", good.clone()), ("ws/c/src/bad.rs", b"#[typeshare]\npub struct B { pub a: u32 } // \xff\xfe\n".to_vec())], vec![], Some("ws/c/src/bad.rs"), vec![], "ws");
+            fault("not-rust", vec![("ws/c/src/good.rs", good.clone()), ("ws/c/src/bad.rs", b"#[typeshare] this is not ( rust {{{\n".to_vec())], vec![], Some("ws/c/src/bad.rs"), vec![], "ws");
+            fault("unclosed-attribute", vec![("ws/c/src/bad.rs", b"#[typeshare\npub struct B { pub a: u32 }\n".to_vec())], vec![], Some("ws/c/src/bad.rs"), vec![], "ws");
+            fault("dangling-symlink", vec![("ws/c/src/good.rs", good.clone())], vec!["symlink:ws/c/src/dangling.rs"], None, vec![], "ws");
+            fault("dangling-symlink-followed", vec![("ws/c/src/good.rs", good.clone())], vec!["symlink:ws/c/src/dangling.rs"], None, vec!["-L"], "ws");
+            fault("directory-named-rs", vec![("ws/c/src/good.rs", good.clone()), ("ws/c/src/dir.rs/inner.rs", good.clone())], vec![], None, vec![], "ws");
+            fault("empty-directory", vec![], vec!["dir:ws/c/src"], None, vec![], "ws");
+            fault("no-annotated-item", vec![("ws/c/src/plain.rs", b"pub struct Plain { pub a: u32 }\n".to_vec())], vec![], None, vec![], "ws");
+            fault("empty-file", vec![("ws/c/src/empty.rs", Vec::new()), ("ws/c/src/good.rs", good.clone())], vec![], None, vec![], "ws");
+            fault("missing-input-directory", vec![("ws/c/src/good.rs", good.clone())], vec![], None, vec![], "does-not-exist");
+            fault("input-is-a-file", vec![("ws/c/src/good.rs", good.clone())], vec![], None, vec![], "ws/c/src/good.rs");
+            fault("missing-config-file", vec![("ws/c/src/good.rs", good.clone())], vec![], None, vec!["-c", "no-such.toml"], "ws");
+            fault("invalid-config-file", vec![("ws/c/src/good.rs", good.clone()), ("bad.toml", b"[swift\nprefix = = 3".to_vec())], vec![], None, vec!["-c", "bad.toml"], "ws");
+            fault("config-wrong-types", vec![("ws/c/src/good.rs", good.clone()), ("bad.toml", b"[swift]\nprefix = 3\n[go]\nuppercase_acronyms = \"x\"\n".to_vec())], vec![], None, vec!["-c", "bad.toml"], "ws");
+            fault("only-commented-annotation", vec![("ws/c/src/c.rs", b"// #[typeshare]\npub struct C { pub a: u32 }\n".to_vec())], vec![], None, vec![], "ws");
+            fault("bom-prefixed", vec![("ws/c/src/bom.rs", [b"\xef\xbb\xbf".to_vec(), good.clone()].concat())], vec![], None, vec![], "ws");
+            fault("crlf-line-endings", vec![("ws/c/src/crlf.rs", b"#[typeshare]\r\npub struct Good { pub a: u32 }\r\n".to_vec())], vec![], None, vec![], "ws");
+        }
+    }
+    v
+}
+
+#[derive(Debug)]
+struct ProcObs {
+    class: &'static str,
+    code: Option<i32>,
+    stderr: String,
+    output_present: bool,
+    names_offending: bool,
+    argv: Vec<String>,
+}
+
+fn run_proc_case(c: &ProcCase, timeout: Duration) -> ProcObs {
+    let sc = Scratch::new("c07");
+    for (p, b) in &c.files {
+        sc.write(p, b);
+    }
+    for s in &c.setup {
+        if let Some(rel) = s.strip_prefix("symlink:") {
+            let p = sc.path(rel);
+            if let Some(d) = p.parent() {
+                let _ = std::fs::create_dir_all(d);
+            }
+            let _ = std::os::unix::fs::symlink(sc.path("nowhere/target.rs"), &p);
+        } else if let Some(rel) = s.strip_prefix("dir:") {
+            sc.mkdir(rel);
+        }
+    }
+    sc.mkdir("out");
+    let mut args = lang_args(c.lang);
+    // an empty Scala package is its own symbol elsewhere; keep packages valid here
+    let out_path = if c.multi { sc.path("out") } else { sc.path(&format!("out/types.{}", c.lang.ext())) };
+    args.extend([s(if c.multi { "-d" } else { "-o" }), out_path.to_string_lossy().into_owned()]);
+    let mut i = 0;
+    while i < c.extra_args.len() {
+        if c.extra_args[i] == "-c" {
+            args.push(s("-c"));
+            args.push(sc.path(&c.extra_args[i + 1]).to_string_lossy().into_owned());
+            i += 2;
+        } else {
+            args.push(c.extra_args[i].clone());
+            i += 1;
+        }
+    }
+    args.push(sc.path(&c.input).to_string_lossy().into_owned());
+    let r = run_cli(&args, &sc.root, &[], timeout);
+    let output_present = if c.multi { !snapshot(&sc.path("out")).is_empty() } else { out_path.is_file() };
+    let names_offending = c.offending.as_ref().map(|o| r.stderr.contains(&*sc.path(o).to_string_lossy())).unwrap_or(true);
+    ProcObs { class: r.class(), code: r.code, stderr: r.stderr.chars().take(1200).collect(), output_present, names_offending, argv: args }
+}
+
+pub fn c07_cli_family(rep: &mut Report) {
+    if !bin_available() {
+        rep.machinery(format!("hooks-on CLI binary missing at {BIN}"));
+        return;
+    }
+    let cases = proc_cases(rep.thorough());
+    let watchdog = Duration::from_secs(4);
+    let mut obs = par_map(&cases, crate::report::threads(), |c| run_proc_case(c, watchdog));
+    // a watchdog hit is confirmed under lighter load with a longer watchdog before it is believed
+    let hung: Vec<usize> = obs.iter().enumerate().filter(|(_, o)| o.class == "hang").map(|(i, _)| i).collect();
+    let rerun = hung.len();
+    let again = par_map(&hung, 4, |i| run_proc_case(&cases[*i], Duration::from_secs(12)));
+    for (i, o) in hung.iter().zip(again) {
+        obs[*i] = o;
+    }
+    let mut classes: BTreeMap<String, u64> = BTreeMap::new();
+    for (c, o) in cases.iter().zip(obs.iter()) {
+        *classes.entry(o.class.to_string()).or_insert(0) += 1;
+        let mode = if c.multi { "multi" } else { "single" };
+        let detail = |what: &str, o: &ProcObs| json!({"case": c.label, "lang": c.lang.name(), "mode": mode, "argv": o.argv, "files": c.files.iter().map(|(p, b)| json!({"path": p, "content": String::from_utf8_lossy(b)})).collect::<Vec<_>>(), "setup": c.setup, "exit_code": o.code, "stderr": o.stderr, "observation": what});
+        match o.class {
+            "ok" => {
+                // exit 0 must come with the requested output, unless there is nothing to write
+                let nothing_expected = c.label.contains("empty") || c.label.contains("no-annotated") || c.label.contains("commented");
+                if !o.output_present && !nothing_expected && c.label.starts_with("fault:") {
+                    rep.vios.add(Violation { sig: format!("C07|cli|exit-0-without-output|{}|mode={mode}", c.label), detail: detail("exit status 0 but no output file", o) });
+                }
+            }
+            "error" => {
+                if o.stderr.trim().is_empty() {
+                    rep.vios.add(Violation { sig: format!("C07|cli|error-without-diagnostic|{}|mode={mode}", c.label), detail: detail("non-zero exit and empty stderr", o) });
+                } else if !o.names_offending && o.stderr.contains("Parsing") {
+                    rep.vios.add(Violation { sig: format!("C07|cli|diagnostic-does-not-name-file|{}|mode={mode}", c.label), detail: detail("parse-stage failure without the offending file's path", o) });
+                }
+            }
+            "usage-error" => {}
+            bad => {
+                // hang / panic / killed: the process did not terminate cleanly
+                let site = if bad == "panic" {
+                    o.stderr.lines().find(|l| l.contains("panicked at")).map(|l| {
+                        let l = l.rsplit('/').next().unwrap_or(l);
+                        l.chars().map(|ch| if ch.is_ascii_digit() { 'N' } else { ch }).collect::<String>()
+                    }).unwrap_or_default()
+                } else {
+                    String::new()
+                };
+                rep.vios.add(Violation { sig: format!("C07|cli|{bad}|{}|lang={}|mode={mode}|{site}", c.label, c.lang.name()), detail: detail("process did not terminate with output or a diagnostic", o) });
+            }
+        }
+    }
+    rep.cov("cli_totality", json!({"process_runs": cases.len(), "outcome_classes": classes, "hangs_rerun_with_longer_watchdog": rerun, "watchdog_s": [4, 12], "cases": "every edge symbol alone + 17 file-level / argument faults × languages × single/multi"}));
+    rep.cov_add("evaluations", cases.len() as u64);
+    rep.cov_add("traces_validated_against_impl", cases.len() as u64);
+}
